@@ -211,8 +211,8 @@ impl TryFrom<&str> for FeelDaysAndTimeDuration {
         }
       }
       if let Some(fractional_match) = captures.name("fractional") {
-        if let Ok(fractional) = fractional_match.as_str().parse::<f64>() {
-          nanoseconds += (fractional * NANOSECONDS_IN_SECOND as f64).trunc() as i128;
+        if fractional_match.as_str().len() > 1 {
+          nanoseconds += super::fraction_to_nanoseconds(fractional_match.as_str()) as i128;
           is_valid = true;
         }
       }
